@@ -2,10 +2,11 @@
    for the correspondence driver.  ExtrOcamlBasic only; no Extract Constant;
    N/positive/nat stay Coq datatypes. *)
 From Coq Require Import Extraction ExtrOcamlBasic.
-From Robsd Require Import Inv.LsDefs Inv.LsSpec Inv.NameDefs Inv.NameSpec Inv.PurgeDefs Inv.PurgeSpec.
+From Robsd Require Import Inv.LsDefs Inv.LsSpec Inv.NameDefs Inv.NameSpec Inv.PurgeDefs Inv.PurgeSpec Inv.NameNewDefs.
 From RobsdGen Require Import Gen_Util.
 Extraction Language OCaml.
 Extraction "iv_model.ml" ls_exec ls_main_exec ls_count running_builddir spec_ok_ls spec_ok_stdout spec_ok_stdout_named
   build_id build_id_fixed build_id_current gen_build_id_current build_id_is_fixed build_init log_id attempts history gen_build_id gen_build_id_fixed
   spec_ok_build_id spec_ok_log_id spec_ok_kept
-  robsd_clean_exec effective_keep spec_ok_clean invocations_desc kept_of.
+  robsd_clean_exec effective_keep spec_ok_clean invocations_desc kept_of
+  new_invocation lock_acquire lstep attempt.
